@@ -849,7 +849,7 @@ func (it *Interp) sqlExec(st *sqlStmt) Value {
 func sqlStmtOf(v Value) *sqlStmt {
 	n, _ := v.(*Native)
 	if n == nil {
-		panic(pathEnd{Kind: "fault", Label: "nil-stmt", Msg: "method called on nil *sqlite.Stmt"})
+		panic(nilStmtUse{})
 	}
 	return n.Obj.(*sqlStmt)
 }
@@ -883,14 +883,18 @@ func (it *Interp) sqlBind(st *sqlStmt, name string, v sqlVal) {
 	st.binds[name] = v
 }
 
+// nilStmtUse: a method was called on a nil *sqlite.Stmt (zombiezen dereferences it: process panic).
+type nilStmtUse struct{}
+
 // sqlFault lets a statement fail at this site when the harness enabled fault injection.
 func (it *Interp) sqlFault(site string) bool {
-	if !it.sqlFaults {
-		return false
+	if !it.sqlFaults || it.sqlInjected >= 1 {
+		return false // at most one injected failure per run (stated bound)
 	}
 	b := BoolV{T: it.freshVar("fault:"+site, 0)}
 	if it.branch(b) {
-		it.facts["fault_at"] = site
+		it.facts["i:fault_at"] = site
+		it.sqlInjected++
 		return true
 	}
 	return false
@@ -1132,6 +1136,9 @@ func init() {
 	reg(apiPkg+"SQLFaults", func(it *Interp, g *G, fr *Frame, a []Value, cc *ssa.CallCommon) (Value, status) {
 		it.sqlFaults = a[0].(BoolV).C
 		return nil, stOK
+	})
+	reg(apiPkg+"SQLInjected", func(it *Interp, g *G, fr *Frame, a []Value, cc *ssa.CallCommon) (Value, status) {
+		return goInt(it.sqlInjected), stOK
 	})
 	reg(apiPkg+"SQLRowCount", func(it *Interp, g *G, fr *Frame, a []Value, cc *ssa.CallCommon) (Value, status) {
 		// number of rows in table a[0] whose column a[1] holds text a[2] ("" column: all rows)
